@@ -51,10 +51,23 @@ def gen_degenerate(rng, target):
             v = [rng.choice(cats) for _ in range(n)] if sh == "normal_c" else [cats[min(k - 1, int(k * rng.random() ** 3))] for _ in range(n)]
             v = [None if rng.random() < nan_rate else x for x in v]
             cols[name] = pd.Series(v, dtype=object); qualitative.append(name)
+    f0 = list(cols)[0]
+    if n >= 12 and rng.random() < 0.2:
+        # 2-3 identifier-like columns (every value rarer than min_freq): dropped one after the other by the discretizers;
+        # also declared ordinal in some cases (a ranking of all their values)
+        for j in range(rng.randint(2, 3)):
+            name = f"id{j}"
+            v = [f"u{j}_{i:04d}" for i in range(n)]
+            rng.shuffle(v)
+            cols[name] = pd.Series(v, dtype=object)
+            if rng.random() < 0.3:
+                ordinal.append(name); values_orders[name] = sorted(v)
+            else:
+                qualitative.append(name)
+        shapes = shapes + ["id_like"]
     X = pd.DataFrame(cols)
     X.index = fitgen._index(rng, n)
     X["extra_col"] = list(range(n))
-    f0 = list(cols)[0]
     mode = rng.choice(["random", "random", "const_on_nonmissing", "step"])
     y = []
     for v in X[f0].tolist():
